@@ -110,7 +110,7 @@ def vh_gen(work, vh, family, seed, tier, name=None, timeout=1800, extra=()):
 
 _RE_STATES = re.compile(r"(\d+) states generated, (\d+) distinct states found, (\d+) states left on queue")
 _RE_INV = re.compile(r"Invariant (\S+) is violated")
-_RE_PROP = re.compile(r"(Temporal properties were violated|Action property (\S+) is violated)")
+_RE_PROP = re.compile(r"(Temporal properties were violated|Action property (\S+) is violated|Temporal property (\S+) was violated)")
 
 
 _STAGE_LOCK = threading.Lock()
@@ -144,7 +144,7 @@ def tlc(work, module, cfg=None, workers=4, timeout=1800, env=None, heap="4g", ex
                generated=0, distinct=0, queue=0, violated=[], mismatches=[], cases=[], error=None)
     for m in _RE_STATES.finditer(out):
         res["generated"], res["distinct"], res["queue"] = int(m.group(1)), int(m.group(2)), int(m.group(3))
-    res["violated"] = _RE_INV.findall(out) + [m.group(2) or m.group(1) for m in _RE_PROP.finditer(out)
+    res["violated"] = _RE_INV.findall(out) + [m.group(2) or m.group(3) or m.group(1) for m in _RE_PROP.finditer(out)
                                                if "violated" in m.group(1)]
     for line in out.splitlines():
         if line.startswith('<<"MISMATCH"'):
